@@ -394,6 +394,7 @@ class Problem(  # type: ignore[misc]
                 remove_used_fluents(e.fluent, e.value, e.condition)
                 static_fluents.discard(e.fluent.fluent())
         for pro in self._processes:
+            remove_used_fluents(*pro.preconditions)
             for e in pro.effects:
                 remove_used_fluents(e.fluent, e.value, e.condition)
                 static_fluents.discard(e.fluent.fluent())
@@ -1272,6 +1273,9 @@ class _KindFactory:
     ):
         for param in process.parameters:
             self.update_action_parameter(param)
+
+        for c in process.preconditions:
+            self.update_problem_kind_expression(c)
 
         continuous_fluents = set()
         fluents_in_rhs = set()
